@@ -66,6 +66,12 @@ def check(ctx: Ctx):
 
     c03._guarded(ctx, "R05.4", c05.fitting_uint_table)
     c03._guarded(ctx, "R05.6", c05.check_semantic_dtype)
+    # the foregrounds reaching the result are the input's: the pair is cropped exactly once with a
+    # crop that covers both (R10.1, R10.3)
+    from . import c10
+
+    c03._guarded(ctx, "R10.1", c10.check_crop_data)
+    c03._guarded(ctx, "R10.3", c10.check_crop_mask)
     # results of later evaluations (another group, a flipped copy, the exchanged pair, a second
     # threshold) are only meaningful if no step writes into the caller's arrays (R15.8)
     from . import c15 as _c15
